@@ -77,7 +77,8 @@ impl Vector {
             return false;
         }
         for i in 0..self.len() {
-            if rel_diff(self[i], other[i]) > tol {
+            let (a, b) = (self[i], other[i]);
+            if (a < 0. && b > 0.) || (a > 0. && b < 0.) || rel_diff(a, b) > tol {
                 return false;
             }
         }
